@@ -28,10 +28,10 @@ func sizeMessageSet(mi *MessageInfo, p pointer, opts marshalOptions) (size int) 
 		size += messageset.SizeField(num)
 		if fullyLazyExtensions(opts) {
 			// Don't expand the extension, instead use the buffer to calculate size
-			if lb := x.lazyBuffer(); lb != nil {
+			if v := lazyMessageSetItem(&x, xi); v != nil {
 				// We got hold of the buffer, so it's still lazy.
-				// Don't count the tag size in the extension buffer, it's already added.
-				size += protowire.SizeTag(messageset.FieldMessage) + len(lb) - xi.tagsize
+				// The tag in the extension buffer is not counted, it's already added.
+				size += protowire.SizeTag(messageset.FieldMessage) + len(v)
 				continue
 			}
 		}
@@ -43,6 +43,24 @@ func sizeMessageSet(mi *MessageInfo, p pointer, opts marshalOptions) (size int) 
 	}
 
 	return size
+}
+
+// lazyMessageSetItem returns the length-prefixed payload of a still-lazy
+// extension whose buffer holds exactly one record, with the record's tag
+// (the extension number) removed. If the item occurred more than once on the
+// wire, the buffer holds several records; these cannot be passed through as
+// the single message field of an item, so nil is returned and the caller
+// expands the extension (which merges the records) instead.
+func lazyMessageSetItem(x *ExtensionField, xi *extensionFieldInfo) []byte {
+	lb := x.lazyBuffer()
+	if lb == nil {
+		return nil
+	}
+	v := lb[xi.tagsize:]
+	if _, n := protowire.ConsumeBytes(v); n != len(v) {
+		return nil
+	}
+	return v
 }
 
 func marshalMessageSet(mi *MessageInfo, b []byte, p pointer, opts marshalOptions) ([]byte, error) {
@@ -97,11 +115,11 @@ func marshalMessageSetField(mi *MessageInfo, b []byte, x ExtensionField, opts ma
 
 	if fullyLazyExtensions(opts) {
 		// Don't expand the extension if it's still in wire format, instead use the buffer content.
-		if lb := x.lazyBuffer(); lb != nil {
+		if v := lazyMessageSetItem(&x, xi); v != nil {
 			// The tag inside the lazy buffer is a different tag (the extension
 			// number), but what we need here is the tag for FieldMessage:
 			b = protowire.AppendVarint(b, protowire.EncodeTag(messageset.FieldMessage, protowire.BytesType))
-			b = append(b, lb[xi.tagsize:]...)
+			b = append(b, v...)
 			b = messageset.AppendFieldEnd(b)
 			return b, nil
 		}
